@@ -41,6 +41,7 @@ type lbInst struct {
 	bindLin  map[*ssa.Parameter]lin
 	bindLen  map[*ssa.Parameter]lin
 	bindBool map[*ssa.Parameter]bool
+	bindStr  map[*ssa.Parameter]string // constant string arguments
 	alias    map[ssa.Value]string // "lexer", "file"
 	parent   *lbInst
 }
@@ -68,9 +69,11 @@ type lbEngine struct {
 	memo    map[string]*lstate
 	lostDumped bool
 	recorded   map[string]bool
+	scanNeed   map[string]int64 // C14/R10: terminator -> bytes of the opener the search must have left behind
 	scanFns    map[string]bool // functions whose loops are byte scans: checked for unit steps and exhaustive exits
 	progress   bool            // C03/R7: every loop iteration advances the cursor or a counter
 	tiling     bool            // C13/R4: track the Space/Raw/Pos/End stores of tokens and comments
+	split      bool            // C12/R5: SplitRawStatements over the contract of Lexer.NextToken (token fields as atoms)
 	tokLen     bool            // C06/R3: track Token.Kind / Token.AsString stores of the token reader; <param> spans '@' + its name
 	shallow    bool            // calls to lexer methods only move the cursor forward (not followed)
 	shallowLeaf bool           // ... except loop-free leaf helpers (skip, skipN, peek*), which are still inlined
@@ -220,6 +223,15 @@ func (e *lbEngine) aliasOf(in *lbInst, v ssa.Value) string {
 	switch x := v.(type) {
 	case *ssa.Parameter:
 		return in.alias[x]
+	case *ssa.Alloc:
+		if e.split {
+			if isNamed(x.Type(), modRoot, "Lexer") {
+				return "lexer"
+			}
+			if isNamed(x.Type(), modRoot+"/token", "File") {
+				return "file"
+			}
+		}
 	case *ssa.UnOp:
 		if x.Op == token.MUL {
 			if fa, ok := x.X.(*ssa.FieldAddr); ok {
@@ -511,6 +523,7 @@ func (e *lbEngine) run(in *lbInst, entry *lstate) []lbRet {
 			var z []lin
 			if s != nil {
 				s, z = e.phiAssign(in, b, p, s)
+				s = e.boolPhiTransfer(b, p, s)
 				s = e.dropDead(fn, b, s)
 			}
 			ins = append(ins, s)
@@ -1024,8 +1037,11 @@ func (e *lbEngine) boolPhiGuards(in *lbInst, b *ssa.BasicBlock, ins []*lstate, r
 					}
 					continue
 				}
-				// a computed edge: may have either value
-				sel = append(sel, ins[i])
+				// a computed edge: the state of that edge with the edge value assumed to be pol (what is known under
+				// that value was handed over to the phi by boolPhiTransfer before the operand went out of scope)
+				if rs := e.activate(ins[i], e.atom(phi), pol); rs != nil {
+					sel = append(sel, rs)
+				}
 			}
 			if !okPol || len(sel) == 0 {
 				continue
@@ -1045,6 +1061,51 @@ func (e *lbEngine) boolPhiGuards(in *lbInst, b *ssa.BasicBlock, ins []*lstate, r
 		}
 	}
 	return res
+}
+
+// boolPhiTransfer: on the edge p -> b, what is known under a value of a boolean phi operand is known under the same
+// value of the phi (the operand itself is dead in b).
+func (e *lbEngine) boolPhiTransfer(b, p *ssa.BasicBlock, s *lstate) *lstate {
+	if s == nil {
+		return nil
+	}
+	pi := -1
+	for k, q := range b.Preds {
+		if q == p {
+			pi = k
+		}
+	}
+	if pi < 0 {
+		return s
+	}
+	var add []lfact
+	for _, instr := range b.Instrs {
+		phi, ok := instr.(*ssa.Phi)
+		if !ok {
+			break
+		}
+		if !isBoolType(phi.Type()) || pi >= len(phi.Edges) {
+			continue
+		}
+		ed := phi.Edges[pi]
+		if _, isC := constBool(ed); isC {
+			continue
+		}
+		ga, ok := e.at.byKey[ed]
+		if !ok {
+			continue
+		}
+		pa := e.atom(phi)
+		for _, f := range s.f {
+			if f.g == ga {
+				add = append(add, lfact{g: pa, gp: f.gp, l: f.l})
+			}
+		}
+	}
+	if len(add) == 0 {
+		return s
+	}
+	return s.with(add...)
 }
 
 // refine: the state with cond assumed to be pol (nil when that is contradictory).
@@ -1096,6 +1157,27 @@ func (e *lbEngine) refine(in *lbInst, st *lstate, cond ssa.Value, pol bool) *lst
 		switch {
 		case isIntType(x.X.Type()):
 			if !isCountType(x.X.Type()) {
+				// a decoded rune that equals a constant other than utf8.RuneError was decoded from at least one
+				// byte: utf8.DecodeRune*(s) returns (RuneError, 0) for an empty s
+				if op == token.EQL {
+					for _, side := range [][2]ssa.Value{{x.X, x.Y}, {x.Y, x.X}} {
+						ex, ok := side[0].(*ssa.Extract)
+						if !ok || ex.Index != 0 {
+							continue
+						}
+						c, ok := ex.Tuple.(*ssa.Call)
+						if !ok {
+							continue
+						}
+						sc := c.Call.StaticCallee()
+						if sc == nil || sc.Pkg == nil || sc.Pkg.Pkg.Path() != "unicode/utf8" || !strings.HasPrefix(sc.Name(), "DecodeRune") {
+							continue
+						}
+						if k, isC := constInt(side[1]); isC && k != 0xFFFD {
+							return st.ge(e.lenLin(in, c.Call.Args[0]), linConst(1))
+						}
+					}
+				}
 				return st
 			}
 			var ok1, ok2 bool
@@ -1183,6 +1265,12 @@ func (e *lbEngine) execBlock(in *lbInst, b *ssa.BasicBlock, st *lstate, rets *[]
 		switch x := instr.(type) {
 		case *ssa.Phi:
 		case *ssa.UnOp:
+			if e.split && x.Op == token.MUL {
+				if g, ok := e.splitTokenAtom(in, x.X); ok {
+					a := e.atom(x)
+					st = st.eliminate(e.at, map[atomID]bool{a: true}).eq(linAtom(a), linAtom(g))
+				}
+			}
 			if x.Op == token.MUL && e.isPosAddr(in, x.X) {
 				a := e.atom(x)
 				e.at.prio[a] = 1
@@ -1249,6 +1337,9 @@ func (e *lbEngine) execBlock(in *lbInst, b *ssa.BasicBlock, st *lstate, rets *[]
 				}
 			} else if e.tiling && e.tilingStore(in, &st, x) {
 			} else if e.tokLen && e.tokLenStore(in, &st, x) {
+			} else if fa, ok := x.Addr.(*ssa.FieldAddr); ok && e.split && fieldAddrName(fa) == "Buffer" && e.aliasOf(in, fa.X) == "file" {
+				st = st.eliminate(e.at, map[atomID]bool{e.N: true}).eq(linAtom(e.N), e.lenLin(in, x.Val))
+			} else if e.split && e.splitPieceStore(in, &st, x) {
 			} else if fa, ok := x.Addr.(*ssa.FieldAddr); ok && fieldAddrName(fa) == "Buffer" && e.aliasOf(in, fa.X) == "file" {
 				st = st.eliminate(e.at, map[atomID]bool{e.N: true})
 				e.notes = append(e.notes, "Buffer reassigned in "+funcName(in.fn))
@@ -1256,6 +1347,11 @@ func (e *lbEngine) execBlock(in *lbInst, b *ssa.BasicBlock, st *lstate, rets *[]
 		case *ssa.Alloc:
 			if e.tiling && isNamed(x.Type().(*types.Pointer).Elem(), modRoot+"/token", "TokenComment") {
 				st = e.dropGhosts(st, x)
+			}
+			if e.split && isNamed(x.Type(), modRoot, "Lexer") {
+				// a fresh Lexer: the zero Token
+				tp, te, c0 := e.splitAtoms()
+				st = st.eliminate(e.at, map[atomID]bool{tp: true, te: true, c0: true}).eq(linAtom(tp), linConst(0)).eq(linAtom(te), linConst(0))
 			}
 		case *ssa.Lookup:
 			if isStringType(x.X.Type()) {
@@ -1268,7 +1364,13 @@ func (e *lbEngine) execBlock(in *lbInst, b *ssa.BasicBlock, st *lstate, rets *[]
 		case *ssa.Slice:
 			e.sliceOb(in, st, x)
 		case *ssa.Call:
+			if os.Getenv("VERIF_LB_IFDEBUG") != "" && in.fn.Name() == "skipComment" {
+				fmt.Printf("LB BEFORECALL %s b%d %s record=%v\n", in.fn.Name(), b.Index, x.Name(), e.record)
+			}
 			st = e.execCall(in, st, x)
+			if os.Getenv("VERIF_LB_IFDEBUG") == fmt.Sprintf("%s.b%d", in.fn.Name(), b.Index) {
+				fmt.Printf("LB AFTERCALL %s b%d %s: %s\n", in.fn.Name(), b.Index, x.Name(), e.at.showState(st))
+			}
 		case *ssa.Return:
 			if e.trace && e.record {
 				fmt.Printf("LB RET %s: %s\n", e.context(), e.at.showState(st))
@@ -1329,6 +1431,9 @@ func (e *lbEngine) execBlock(in *lbInst, b *ssa.BasicBlock, st *lstate, rets *[]
 		case *ssa.Jump:
 			return []*lstate{st}
 		case *ssa.If:
+			if e.trace && e.record && os.Getenv("VERIF_LB_IFDEBUG") == fmt.Sprintf("%s.b%d", in.fn.Name(), b.Index) {
+				fmt.Printf("LB IF %s b%d cond %s: %s\n   true: %s\n", in.fn.Name(), b.Index, x.Cond.Name(), e.at.showState(st), e.at.showState(e.refine(in, st, x.Cond, true)))
+			}
 			return []*lstate{e.refine(in, st, x.Cond, true), e.refine(in, st, x.Cond, false)}
 		}
 	}
@@ -1445,6 +1550,18 @@ func (e *lbEngine) execCall(in *lbInst, st *lstate, call *ssa.Call) *lstate {
 		r := linAtom(e.atom(call))
 		return st.ge(r, linConst(-1)).ge(linConst(4), r)
 	}
+	if e.split && callee.Name() == "NextToken" && callee.Signature.Recv() != nil && len(com.Args) == 1 && e.aliasOf(in, com.Args[0]) == "lexer" {
+		// contract of Lexer.NextToken on a nil error (C13/R1 + R4: the cursor moves only inside nextToken and is at
+		// the End last recorded on return; Space starts there; comments and token follow in order):
+		//   Pos' >= End,  End' >= Pos',  End' <= len(Buffer),  End <= Comments[0].Pos' <= Pos'
+		tp, te, c0 := e.splitAtoms()
+		ntp, nte := e.prime(tp), e.prime(te)
+		st = st.eliminate(e.at, map[atomID]bool{c0: true})
+		st = st.ge(linAtom(ntp), linAtom(te)).ge(linAtom(nte), linAtom(ntp)).ge(linAtom(e.N), linAtom(nte)).
+			ge(linAtom(c0), linAtom(te)).ge(linAtom(ntp), linAtom(c0))
+		st = st.eliminate(e.at, map[atomID]bool{tp: true, te: true}).renameAll(map[atomID]atomID{ntp: tp, nte: te})
+		return st
+	}
 	// File.Position contract
 	if callee.Name() == "Position" && callee.Signature.Recv() != nil && fnPkgPath(callee) == modRoot+"/token" && len(com.Args) == 3 {
 		if e.aliasOf(in, com.Args[0]) == "file" {
@@ -1528,6 +1645,32 @@ func (e *lbEngine) inline(in *lbInst, st *lstate, call *ssa.Call, callee *ssa.Fu
 			}
 		case isStringish(p.Type()):
 			ni.bindLen[p] = e.lenLin(in, a)
+			if sv, ok := constString(a); ok {
+				if ni.bindStr == nil {
+					ni.bindStr = map[*ssa.Parameter]string{}
+				}
+				ni.bindStr[p] = sv
+			} else if ap, ok := a.(*ssa.Parameter); ok {
+				if sv, ok := in.bindStr[ap]; ok {
+					if ni.bindStr == nil {
+						ni.bindStr = map[*ssa.Parameter]string{}
+					}
+					ni.bindStr[p] = sv
+				}
+			}
+		}
+	}
+	// C14/R10: the window compared with a comment terminator does not overlap the opener
+	if e.scanNeed != nil && e.record && callee.Name() == "slice" && e.scanFns[in.fn.Name()] && len(com.Args) == 3 {
+		if k, isC := constInt(com.Args[1]); isC && k == 0 {
+			for p, term := range in.bindStr {
+				if call2, ok := com.Args[2].(*ssa.Call); ok && isLenCall(call2) && call2.Call.Args[0] == ssa.Value(p) {
+					need := e.scanNeed[term]
+					g := e.at.get("entryPos", "cursor at entry", false)
+					e.requireAt(st, in.fn, call, "C14/R10", fmt.Sprintf("%s: the search for %q starts behind the comment opener", funcName(in.fn), term),
+						[]string{fmt.Sprintf("cursor - start of the comment >= %d", need)}, []lin{linAtom(e.P).sub(linAtom(g)).add(linConst(-need))})
+				}
+			}
 		}
 	}
 	if e.trace && e.record && os.Getenv("VERIF_LB_CALLDEBUG") == callee.Name() {
@@ -2140,6 +2283,128 @@ func (e *lbEngine) tilingStore(in *lbInst, stp **lstate, x *ssa.Store) bool {
 	return true
 }
 
+// ---- C12/R5: the pieces of SplitRawStatements ------------------------------------------------------
+
+func (e *lbEngine) splitAtoms() (tp, te, c0 atomID) {
+	return e.at.get(ghostFieldKey{"Token", "Pos(field)"}, "Token.Pos", false),
+		e.at.get(ghostFieldKey{"Token", "End(field)"}, "Token.End", false),
+		e.at.get(ghostFieldKey{"Token", "Comments[0].Pos"}, "Token.Comments[0].Pos", false)
+}
+
+// splitTokenAtom: addr is &lex.Token.Pos, &lex.Token.End or &lex.Token.Comments[0].Pos.
+func (e *lbEngine) splitTokenAtom(in *lbInst, addr ssa.Value) (atomID, bool) {
+	fa, ok := addr.(*ssa.FieldAddr)
+	if !ok {
+		return 0, false
+	}
+	tp, te, c0 := e.splitAtoms()
+	isTok := func(v ssa.Value) bool {
+		b, ok := v.(*ssa.FieldAddr)
+		return ok && fieldAddrName(b) == "Token" && e.aliasOf(in, b.X) == "lexer"
+	}
+	if isTok(fa.X) {
+		switch fieldAddrName(fa) {
+		case "Pos":
+			return tp, true
+		case "End":
+			return te, true
+		}
+		return 0, false
+	}
+	// Comments[0].Pos
+	if fieldAddrName(fa) == "Pos" {
+		if ia, ok := fa.X.(*ssa.IndexAddr); ok {
+			if k, isC := constInt(ia.Index); isC && k == 0 {
+				if ld, ok := isLoad(ia.X); ok {
+					if cf, ok := ld.(*ssa.FieldAddr); ok && fieldAddrName(cf) == "Comments" && isTok(cf.X) {
+						return c0, true
+					}
+				}
+			}
+		}
+	}
+	return 0, false
+}
+
+// splitPieceStore: the store of RawStatement.End completes a piece: it lies within the input, is ordered, and starts
+// at or after the end of the piece before it.
+func (e *lbEngine) splitPieceStore(in *lbInst, stp **lstate, x *ssa.Store) bool {
+	fa, ok := x.Addr.(*ssa.FieldAddr)
+	if !ok {
+		return false
+	}
+	al, ok := fa.X.(*ssa.Alloc)
+	if !ok || !isNamed(al.Type(), modRoot, "RawStatement") {
+		return false
+	}
+	if fieldAddrName(fa) != "End" {
+		return true
+	}
+	st := *stp
+	fields := allocFieldStores(al)
+	posV := fields["Pos"]
+	endL, ok1 := e.linear(in, x.Val)
+	if posV == nil || !ok1 {
+		e.requireAt(st, in.fn, x, "C12/R5", "piece: Pos and End are recorded", []string{"both fields stored from tracked values"}, []lin{linConst(-1)})
+		return true
+	}
+	posL, ok2 := e.linear(in, posV)
+	if !ok2 {
+		e.requireAt(st, in.fn, x, "C12/R5", "piece: Pos and End are recorded", []string{"both fields stored from tracked values"}, []lin{linConst(-1)})
+		return true
+	}
+	if e.record {
+		e.requireAt(st, in.fn, x, "C12/R5", "piece: 0 <= Pos <= End <= len(input)", []string{"0 <= Pos", "Pos <= End", "End <= len(input)"},
+			[]lin{posL, endL.sub(posL), linAtom(e.N).sub(endL)})
+		last := e.at.get("lastPieceEnd", "End of the previous piece", false)
+		if e.present(st, last) {
+			e.requireAt(st, in.fn, x, "C12/R5", "piece: starts at or after the end of the previous piece", []string{"previous End <= Pos"}, []lin{posL.sub(linAtom(last))})
+		}
+	}
+	last := e.at.get("lastPieceEnd", "End of the previous piece", false)
+	st = st.eliminate(e.at, map[atomID]bool{last: true}).eq(linAtom(last), endL)
+	*stp = st
+	return true
+}
+
+// ruleC12R5: the arithmetic clause of C12.
+func ruleC12R5(w *World, r *Report) {
+	const rule = "C12/R5"
+	r.rule(rule, "SplitRawStatements: every piece has 0 <= Pos <= End <= len(input), begins at or after the end of the piece before it, and both s[Pos:End] slices are within the input — proved in the LEXBOUNDS domain with the fields of the lexer's current token as atoms, under the contract of Lexer.NextToken that C13/R1 and C13/R4 establish (the new token starts at or after the old End, End >= Pos, End <= len(Buffer), its first comment lies between the old End and its Pos; a fresh Lexer has the zero token)", 3)
+	defer debug.SetGCPercent(debug.SetGCPercent(1000))
+	root := w.fn(w.Mem, "SplitRawStatements")
+	if root == nil {
+		r.errorf("SplitRawStatements not found")
+		return
+	}
+	e := w.newLexBounds()
+	e.split = true
+	e.trace = verboseRule() != "" && verboseRule() != "1" && strings.HasPrefix(rule, verboseRule())
+	e.runRoot(root, nil)
+	n := 0
+	for _, ob := range e.results() {
+		isSlice := ob.rule == "C03/R6" && strings.Contains(ob.construct, "s[")
+		if ob.rule != rule && !isSlice {
+			continue
+		}
+		n++
+		construct := ob.construct
+		if ob.failed == 0 {
+			r.ok(rule, construct, ob.where, fmt.Sprintf("proved in %d context(s)", ob.total))
+		} else {
+			var ds []string
+			for d := range ob.details {
+				ds = append(ds, d)
+			}
+			sort.Strings(ds)
+			r.bad(rule, construct, ob.where, fmt.Sprintf("%d of %d context(s): %s", ob.failed, ob.total, strings.Join(ds, " | ")))
+		}
+	}
+	if n < 3 {
+		r.errorf("expected the piece obligations and the two slices of SplitRawStatements, found %d", n)
+	}
+}
+
 // tokLenStore: stores to Token.Kind / Token.AsString in the token reader (C06/R3).
 func (e *lbEngine) tokLenStore(in *lbInst, stp **lstate, x *ssa.Store) bool {
 	fa, ok := x.Addr.(*ssa.FieldAddr)
@@ -2307,8 +2572,11 @@ func (e *lbEngine) runRoot(fn *ssa.Function, bools map[string]bool) {
 		if n := namedOf(p.Type()); n != nil && n.Obj().Name() == "Lexer" && n.Obj().Pkg().Path() == modRoot {
 			in.alias[p] = "lexer"
 			st = st.ge(linAtom(e.P), linConst(0)).ge(linAtom(e.N), linAtom(e.P))
-			if e.tokLen {
+			if e.tokLen || e.scanNeed != nil {
 				st = st.eq(linAtom(e.at.get("entryPos", "cursor at entry", false)), linAtom(e.P))
+			}
+			if e.split {
+				st = st.eq(linAtom(e.at.get("lastPieceEnd", "End of the previous piece", false)), linConst(0))
 			}
 			if os.Getenv("VERIF_LB_ASSUME_AVAIL") != "" {
 				st = st.ge(linAtom(e.N), linAtom(e.P).add(linConst(1)))
@@ -2534,6 +2802,25 @@ func ruleC14R8(w *World, r *Report) {
 	defer debug.SetGCPercent(debug.SetGCPercent(1000))
 	e := w.newLexBounds()
 	e.scanFns = map[string]bool{"skipCommentUntil": true}
+	// C14/R10: how far behind the start of the comment the terminator search has to begin, per terminator:
+	// the longest suffix of an opener that is a prefix of the terminator must not be part of a match ("/*/")
+	r.rule("C14/R10", "the search for a comment terminator does not use bytes of the opener: where a proper suffix of an opener is a prefix of its terminator ('/*' and '*/'), every window compared with the terminator starts at least that far behind the start of the comment — '/*/' is an unclosed comment, not a complete one", 1)
+	e.scanNeed = map[string]int64{}
+	for _, c := range w.commentOpeners() {
+		need := int64(0)
+		for j := 0; j < len(c.opener); j++ {
+			if strings.HasPrefix(c.term, c.opener[j:]) {
+				need = int64(len(c.opener))
+				break
+			}
+		}
+		if need > e.scanNeed[c.term] {
+			e.scanNeed[c.term] = need
+		}
+		if _, ok := e.scanNeed[c.term]; !ok {
+			e.scanNeed[c.term] = 0
+		}
+	}
 	e.trace = verboseRule() != "" && verboseRule() != "1" && strings.HasPrefix(rule, verboseRule())
 	root := w.fn(w.Mem, "(*Lexer).skipComment")
 	if root == nil || w.fn(w.Mem, "(*Lexer).skipCommentUntil") == nil {
@@ -2542,8 +2829,23 @@ func ruleC14R8(w *World, r *Report) {
 	}
 	e.runRoot(root, map[string]bool{"noPanic": false})
 	e.runRoot(root, map[string]bool{"noPanic": true})
+	n10 := 0
 	for _, ob := range e.results() {
-		if ob.rule != rule && ob.rule != "C03/R6" {
+		if ob.rule != rule && ob.rule != "C03/R6" && ob.rule != "C14/R10" {
+			continue
+		}
+		if ob.rule == "C14/R10" {
+			n10++
+			if ob.failed == 0 {
+				r.ok("C14/R10", ob.construct, ob.where, fmt.Sprintf("proved in %d context(s)", ob.total))
+			} else {
+				var ds []string
+				for d := range ob.details {
+					ds = append(ds, d)
+				}
+				sort.Strings(ds)
+				r.bad("C14/R10", ob.construct, ob.where, fmt.Sprintf("%d of %d context(s): %s", ob.failed, ob.total, strings.Join(ds, " | ")))
+			}
 			continue
 		}
 		// the index / slice / cursor bounds inside the comment scanner are part of this rule as well
@@ -2568,7 +2870,7 @@ func ruleC14R8(w *World, r *Report) {
 				continue
 			}
 			for _, side := range [][2]ssa.Value{{bo.X, bo.Y}, {bo.Y, bo.X}} {
-				if side[1] != ssa.Value(fn.Params[1]) {
+				if p, isP := side[1].(*ssa.Parameter); !isP || p.Parent() != fn || !isStringType(p.Type()) {
 					continue
 				}
 				// side[0]: l.slice(0, len(end)) or l.Buffer[l.pos : l.pos+len(end)]
